@@ -76,6 +76,8 @@ def shards(plan, extra=()):
         elif e == 'char':
             for i in range(8):
                 out.append({'layer': 'char', 'i': i, 'k': 8})
+        elif e == 'args':
+            out.append({'layer': 'args'})
         elif e == 'samples':
             out.append({'layer': 'samples'})
     return out
@@ -102,6 +104,8 @@ def iter_docs(shard):
         yield from neighbour_docs(alpha('full'), shard['i'], shard['k'])
     elif layer == 'char':
         yield from char_docs(shard['i'], shard['k'])
+    elif layer == 'args':
+        yield from args_docs()
     elif layer == 'samples':
         for path, text in sample_texts():
             yield text, None
@@ -254,6 +258,26 @@ def char_docs(i, k):
                     if label != 'top' and not gram.hole_ok(hctx, fo, headinfo, nholes - 1, nholes):
                         continue
                     yield wrap(fo)
+
+
+# ---------------------------------------------------------------------------------------------
+# argument layer: up to 2 bracket then up to 3 brace groups with repeating bodies (textual twins among arguments)
+
+def args_docs():
+    import itertools
+    a = alpha('full')
+    N = a.N
+    bodies = [(), (('T', N.a),), (('T', N.b),)]
+    for m in range(0, 3):
+        for n in range(0, 4):
+            if m + n == 0:
+                continue
+            for combo in itertools.product(bodies, repeat=m + n):
+                args = tuple((('G[' if j < m else 'G{'), b) for j, b in enumerate(combo))
+                for items in ((('C', N.x, args, ()),),
+                              (('E', N.e, args, (('T', N.a),)),),
+                              (('T', N.a), ('C', N.x, args, ()), ('T', N.o))):
+                    yield gram.render(items), items
 
 
 # ---------------------------------------------------------------------------------------------
